@@ -223,7 +223,7 @@ def run(tier, seed, replay=None):
     if tier == "thorough":
         combos += [(g, h, how, True) for g in (1, 2, 3) for h in range(1, g + 1) for how in HOWS]
     else:
-        combos += [(2, 2, "ephauth", True), (1, 1, "ident", True)]
+        combos += [(2, 2, "ephauth", True), (1, 1, "ident", True), (3, 1, "cands", True), (3, 2, "cands", True)]
     for i, (goal, hop, how, dup) in enumerate(combos):
         tr, hdr2 = scripted_mangle(ctx, seed * 100 + i, goal, hop, how, dup)
         scr.append(tr)
@@ -247,6 +247,19 @@ def run(tier, seed, replay=None):
                                            [(g, h, o) for g in (1, 2, 3) for h in range(1, g + 1) for o in (0, 1)]):
         tr, hdr5 = scripted_dup_create(ctx, seed * 100 + 90 + i, goal, hop, order)
         susp.append(tr)
+    # an application's own admission policy (should_join_circuit overridden without super()): creates for the ids of
+    # established hops, before and after the joined node's 60 s cache has gone, must not re-key them
+    from .c05 import scripted_id_reuse
+    w = R.world("line4", seed * 100 + 97, suspend_join="own")
+    w.auto_resume = True
+    try:
+        gone = K.guarded(w, scripted_id_reuse, w, "o", 2)
+        tr = {"events": w.events, "topology": "line4", "seed": seed, "profile": "own-admission id reuse", "aborted": gone}
+        K.check_escapes(ctx, w, tr, "own-admission")
+        key_probe(ctx, w, tr["profile"])
+        susp.append(tr)
+    finally:
+        w.close()
     K.validate_family(ctx, PID, susp, "line4", hdr5, "suspended-join", NONTRIVIAL | {"JoinResume"}, suspend_join=True)
     ctx.note("scripted", {"runs": len(scr), "manipulations": sum(1 for t in scr for e in t["events"] if e["a"] == "MangleAnswer")})
     bg.collect(ctx)
